@@ -335,4 +335,9 @@ example : ∃ s d, Tokener.new 32 1 = some s ∧ Tokener.new 32 0 = some d ∧
     (parseExZ refLibc d [91, 49, 32, 47, 42, 99, 42, 47, 93]).err = .success := by
   refine ⟨_, _, rfl, rfl, ?_, ?_, ?_, ?_, ?_, ?_, ?_, ?_, ?_, ?_⟩ <;> decide
 
+
+/-- every source fact this property's model consumes was located in the current source by tools/extract (a fact that is not
+found is emitted with a placeholder value; this obligation then fails and the check uses the reference model) -/
+theorem source_facts_located_c16 : JsonC.Generated.factsFound_tok = true := by decide
+
 end JsonC.Tokener
